@@ -548,7 +548,11 @@ func (q *PathQ) find() (witness []string, found bool) {
 				}
 			}
 		}
+		dead := DeadBlocks(b.Parent())
 		for _, s := range succs {
+			if dead[s] {
+				continue // behind a branch on two constants that goes the other way
+			}
 			e := Edge{b, s}
 			if q.CutEdge != nil && q.CutEdge(e, st) {
 				continue
@@ -691,6 +695,12 @@ func (s *PathState) evalBool(v ssa.Value, depth int) (val, known bool) {
 					return x.Op == token.EQL, true
 				}
 				return false, false
+			}
+		}
+		// two values the path knows as constants of one kind (a mode tag set on the way here)
+		if a, ok := s.constOf(x.X); ok && a != nonNilMarker && a.Value != nil {
+			if b, ok := s.constOf(x.Y); ok && b != nonNilMarker && b.Value != nil && a.Value.Kind() == b.Value.Kind() && a.Value.Kind() != constant.Unknown {
+				return constant.Compare(a.Value, x.Op, b.Value), true
 			}
 		}
 		// len(t) REL 0
